@@ -74,8 +74,11 @@ fn run(ctx: &mut Ctx) {
         let nf = 2 + rng.usize(2);
         let files = gen_link_set(rng, nf, true);
         if files.iter().any(|f| f.a.reject) { return; }
+        // with debug symbols, without (files that declare externals still carry a label table), and mixed
+        let mode = rng.below(3);
         let mut objs = vec![];
-        for f in &files { match crate::asmutil::asm(&f.r.text, true) { Ok(Ok(o)) => objs.push(o), _ => return } }
+        for (i, f) in files.iter().enumerate() { let dbg = match mode { 0 => true, 1 => false, _ => i % 2 == 0 }; match crate::asmutil::asm(&f.r.text, dbg) { Ok(Ok(o)) => objs.push(o), _ => return } }
+        ctx.count(&format!("link.sets.{}", ["debug", "nodebug", "mixed"][mode as usize]));
         for t in &all_trees(nf) {
             ctx.eval();
             // evaluate manually to get the AsmErr itself
@@ -93,6 +96,7 @@ fn run(ctx: &mut Ctx) {
 fn guard(m: &Merged, _t: Tier) -> Vec<String> {
     let mut out = vec![];
     for k in ["UndetAddrLabel", "UndetAddrStmt", "UnclosedOrig", "UnopenedOrig", "OverlappingOrig", "OverlappingLabels", "BlockInIO", "OverlappingBlocks", "OffsetNewErr", "OffsetExternal", "CouldNotFindLabel"] { need(m, &mut out, &format!("asm.errors.{k}"), 5); }
+    for k in ["link.sets.debug", "link.sets.nodebug", "link.sets.mixed"] { need(m, &mut out, k, 20); }
     need(m, &mut out, "link.errors.OverlappingBlocks", 20); need(m, &mut out, "link.errors.OverlappingLabels", 20); need(m, &mut out, "label-spans.checked", 500);
     out
 }
